@@ -1,5 +1,65 @@
-import ChumskyModel.Model.Spec
+/-
+  C12 — recursive parsers equal their unrolling and nest to any depth.
+
+  `call k` refers to definition `k` of the table `env.defs` (models `recursive(..)`, `Recursive::declare`/`define`,
+  mutual recursion). `G.unroll defs d g` expands every reference `d` levels deep (`.boxed` keeps the fuel aligned) and
+  puts `todo` below. Lemmas: Proofs/Lemmas/Unroll.lean.
+  Runtime parts (depth limited by memory through `stacker`, not by the native stack; the `define`-twice panic of the
+  once-cell) are exercised on the real crate by the check (partial, see DESIGN.md).
+-/
+import ChumskyModel.Proofs.Lemmas.Unroll
+set_option linter.unusedSimpArgs false
 namespace Chumsky
-theorem placeholder_C12 : True := trivial
-#print axioms placeholder_C12
+
+/-- **C12 (unrolling).** For every definition table (single or mutually recursive), every grammar, mode, state and
+    fuel `n`, and every depth `d ≥ n`: the run with the table equals — same outcome, value and whole state — the run
+    of the grammar with every reference expanded `d` levels deep, *without* the table. A returned result therefore
+    never reached the `todo` at the bottom: the recursion went exactly as deep as the input required. -/
+theorem c12_unroll {n d : Nat} (h : d ≥ n) (env : Env) (m : Mode) (g : G) (st : St) :
+    run n env m g st = run n { env with defs := [] } m (g.unroll env.defs d) st :=
+  run_unroll h env m g st
+
+theorem c12_unroll_parse (n : Nat) (env : Env) (m : Mode) (g : G) :
+    parseTop n env m g = parseTop n { env with defs := [] } m (g.unroll env.defs n) :=
+  parseTop_unroll n env m g
+
+/-- when every reference is defined, the unrolled grammar contains no reference at all and can be run with any table -/
+theorem c12_unroll_closed {n d : Nat} (h : d ≥ n) (env : Env) (hd : callsBelowL env.defs.length env.defs = true)
+    (m : Mode) (g : G) (hg : g.callsBelow env.defs.length = true) (ds : List G) (st : St) :
+    (g.unroll env.defs d).callFree = true ∧
+      run n env m g st = run n { env with defs := ds } m (g.unroll env.defs d) st :=
+  run_unroll_closed h env hd m g hg ds st
+
+/-- a reference to an undefined parser is refused loudly (panic), never silently accepted -/
+theorem c12_undefined_panics (n : Nat) (env : Env) (m : Mode) (k : Nat) (st : St) (h : env.defs[k]? = none) :
+    run (n + 1) env m (.call k) st = .panic pUndefined := by
+  simp [run, step, h]
+
+/-- model of the once-cell behind `Recursive::declare`/`define`: the first definition is kept, a second one panics -/
+inductive Cell where
+  | empty
+  | defined (g : G)
+
+def Cell.define : Cell → G → Except Nat Cell
+  | .empty, g => .ok (.defined g)
+  | .defined _, _ => .error 77        -- "Parser defined more than once"
+
+theorem c12_define_once (g1 g2 : G) :
+    (Cell.empty.define g1).bind (fun c => c.define g2) = .error 77 := rfl
+
+/-- non-vacuity: `expr = '(' expr ')' | 'x'` on "((x))" equals its unrolling -/
+example :
+    let defs : List G := [.or_ (.delimitedBy (.call 0) (.just [40]) (.just [41])) (.just [120])]
+    let env : Env := { toks := [40, 40, 120, 41, 41], defs := defs }
+    (match parseTop 12 env .emit (.call 0) with | .result r f => (r.output, f.pos) | _ => (none, 0)) = (some (.toks [120]), 5) ∧
+    parseTop 12 env .emit (.call 0) = parseTop 12 { env with defs := [] } .emit ((G.call 0).unroll defs 12) := by
+  constructor
+  · decide +kernel
+  · exact parseTop_unroll 12 _ .emit (.call 0)
+
+#print axioms c12_unroll
+#print axioms c12_unroll_parse
+#print axioms c12_unroll_closed
+#print axioms c12_undefined_panics
+#print axioms c12_define_once
 end Chumsky
